@@ -14,7 +14,7 @@ import (
 	"hzcheck/esp"
 )
 
-func init() { register("C15", c15Order, c15Getters, c15Bits, c15Cache, c15ErrFlow) }
+func init() { register("C15", c15Order, c15Getters, c15Bits, c15Cache, c15ErrFlow, c15Default) }
 
 const (
 	relDecoder = "pkg/app/server/binding/internal/decoder"
